@@ -262,13 +262,42 @@ def _opaque_helpers(ctx):
     return cache["v"]
 
 
-def _lfilter_hook(records):
+def _returns_pair(ctx, v):
+    """the value is the result of calling a module-level function every `return` of which is a display of two items (the coefficient functions:
+    `return b, a`) - so `*value` in an argument list supplies exactly two arguments"""
+    u = unfn(v) if (v is not None and not is_unknown(v) and not isinstance(v, (tuple, DictValue))) else None
+    name = None
+    if u and u[0] == "apply" and u[1] and not isinstance(u[1][0], str):
+        name = sym_of(u[1][0])
+    elif u and u[0].startswith("call:"):
+        name = u[0][5:]
+    if name is None or ctx is None or not ctx.src.has_func(SRS, name):
+        return False
+    fn = ctx.src.mod(SRS).funcs[name]
+    rets = [n for n in ast.walk(fn) if isinstance(n, ast.Return)]
+    own = [r for r in rets if not any(isinstance(a, (ast.FunctionDef, ast.Lambda)) and a is not fn and r in ast.walk(a) for a in ast.walk(fn))]
+    return bool(own) and all(isinstance(r.value, ast.Tuple) and len(r.value.elts) == 2 and not any(isinstance(e, ast.Starred) for e in r.value.elts) for r in own)
+
+
+def _lfilter_hook(records, ctx=None):
     def hook(node, ev):
         d = dotted(node.func) or ""
         if d.split(".")[-1] != "lfilter":
             return NotImplemented
         kw = {k.arg: ev.ev(k.value) for k in node.keywords if k.arg is not None}
-        pos = [ev.ev(a) for a in node.args]
+        pos = []
+        for a in node.args:
+            if isinstance(a, ast.Starred):
+                v = ev.ev(a.value)
+                if isinstance(v, tuple):
+                    pos.extend(v)
+                elif _returns_pair(ctx, v):
+                    pos.extend([F.fn("idx", need(v), F.const(0)), F.fn("idx", need(v), F.const(1))])     # lfilter(*coeffunc(Q, dT, w), x, ...)
+                else:
+                    pos.append(X.Unknown("unpacking of a value whose length the evaluator does not know"))
+                    break
+            else:
+                pos.append(ev.ev(a))
         names = ["b", "a", "x", "axis"]
         got = dict(zip(names, pos))
         got.update({k: v for k, v in kw.items() if k in names})
@@ -335,8 +364,8 @@ def srs_regime(ctx, st="absacce", ic="zero", time="primary", getresp=False, para
     records = []
     # the coefficient functions (R1 / R2) and the peak function (R8) are verified on their own: here they stay symbolic
     keep = set(_opaque_helpers(ctx)) | set(STYPES) | {_peak_function(ctx, "abs")}
-    for _dec, S_ in explore(ctx, fn, SRS, fixed=_srs_fixed(parallel, set(params)), limit=limit, env=opts, hooks=(_lfilter_hook(records),),
-                            exclude=keep):
+    for _dec, S_ in explore(ctx, fn, SRS, fixed=_srs_fixed(parallel, set(params)), limit=limit, env=opts, hooks=(_lfilter_hook(records, ctx),),
+                            exclude=keep, arrays=("sig", "freq")):
         recs = list(records)
         del records[:]
         yield S_, recs
@@ -424,7 +453,7 @@ def _process_ic_steady(ctx, stype):
     params = [a.arg for a in fn.args.posonlyargs + fn.args.args]
     if len(params) != 3:
         raise AnchorError("_process_ic(sig, ic, stype)")
-    S_ = Sem3(ctx, fn, SRS, env={params[0]: F.sym("sig"), params[1]: S("steady"), params[2]: S(stype)})
+    S_ = Sem3(ctx, fn, SRS, env={params[0]: F.sym("sig"), params[1]: S("steady"), params[2]: S(stype)}, arrays=("sig",))
     if not S_.ev.returns:
         raise AnchorError("_process_ic: no return")
     ret = S_.ret()
@@ -524,6 +553,46 @@ def _parallel_setup(ctx, S_):
     return m.funcs[wname], glob
 
 
+def _task_argument(S_):
+    """value of the argument one task of the pool receives, decoded from the iterable srs() hands to the pool's map: zip(range(LF), repeat(args)) gives
+    (<task>, args) - the tuple the worker unpacks, with the option values of the regime in it.  None when the iterable is built another way (the worker is
+    then evaluated on a symbolic argument)"""
+    disp = [c for c in S_.ev.calls if c[0].split(".")[-1] in ("imap_unordered", "imap", "map", "map_async", "starmap")]
+    if not disp or len(disp[0][1]) < 2:
+        return None
+    k = F.sym("<task>")
+
+    def value(v):
+        if isinstance(v, tuple):
+            return X.PyTuple(value(x) for x in v)
+        u = unfn(v) if (v is not None and not is_unknown(v) and not isinstance(v, DictValue)) else None
+        if u and u[0] == "tuple":
+            return X.PyTuple(value(x) for x in u[1])
+        return v
+
+    def element(v):
+        if isinstance(v, tuple) or v is None or is_unknown(v) or isinstance(v, DictValue):
+            raise Unsupported("iterable of the pool's map")
+        u = unfn(v)
+        if not u or any(isinstance(a, str) for a in u[1]):
+            raise Unsupported("iterable of the pool's map")
+        name, args = u
+        last = name.split(".")[-1].split(":")[-1]
+        if name.startswith("call:") and last == "zip" and args:
+            return X.PyTuple(element(a) for a in args)
+        if name.startswith("call:") and last in ("range", "count"):
+            return k
+        if name.startswith("call:") and last == "repeat" and args:
+            return value(args[0])
+        if name.startswith("call:") and last == "enumerate" and len(args) == 1:
+            return X.PyTuple((k, F.fn("idx", args[0], k)))
+        raise Unsupported("iterable of the pool's map")
+    try:
+        return element(disp[0][1][1])
+    except Unsupported:
+        return None
+
+
 def _stype_fixed(st):
     """inside a worker the response type arrives through the argument tuple: a comparison of a non-literal with response-type names is decided
     for the type `st`"""
@@ -597,7 +666,14 @@ def r3_dc_gain(ctx):
                 for S_, _recs in srs_regime(ctx, st=st, ic="steady", time="primary", getresp=gr, parallel="yes"):
                     wfn, glob = _parallel_setup(ctx, S_)
                     recs = []
-                    W = Sem3(ctx, wfn, SRS, cond=_stype_fixed(st), module_state=glob, hooks=(_lfilter_hook(recs),), exclude=_opaque_helpers(ctx))
+                    wp = [a.arg for a in wfn.args.posonlyargs + wfn.args.args]
+                    task = _task_argument(S_) if len(wp) == 1 else None
+                    if task is not None:
+                        # the worker on the argument srs() sends it: the coefficient and peak functions stay symbolic as in srs() itself
+                        keep = set(_opaque_helpers(ctx)) | set(STYPES) | {_peak_function(ctx, "abs")}
+                        W = Sem3(ctx, wfn, SRS, cond=_stype_fixed(st), module_state=glob, hooks=(_lfilter_hook(recs, ctx),), exclude=keep, env={wp[0]: task})
+                    else:
+                        W = Sem3(ctx, wfn, SRS, cond=_stype_fixed(st), module_state=glob, hooks=(_lfilter_hook(recs, ctx),), exclude=_opaque_helpers(ctx))
                     _check_addback(ctx, st, wfn.name, W, recs, wfn)
             except Unsupported as e:
                 ctx.error(f"{st}: add-back in the worker (getresp={gr})", srsfn, str(e))
